@@ -44,6 +44,7 @@ type Smt struct {
 	eng      *Engine
 	defCache map[string]string
 	onDerive func(newName string, from []string)
+	onFreshHeap func(name, ac string)
 }
 
 func newSmt(eng *Engine, intMode bool) *Smt {
@@ -399,6 +400,7 @@ type Heap struct {
 	mconds  []string // merge edge conditions (same length as merge)
 	root    bool
 	smt     *Smt
+	ac      string // allocation counter when this (root) heap state came into being
 }
 
 var heapSeq int
@@ -429,6 +431,9 @@ func (h *Heap) lookup(cellSort string) string {
 	switch {
 	case h.root:
 		t = h.smt.fresh(fmt.Sprintf("H%d_%s", h.id, k), h.arraySort(cellSort))
+		if h.smt.onFreshHeap != nil {
+			h.smt.onFreshHeap(t, h.ac)
+		}
 	case h.merge != nil:
 		terms := make([]string, len(h.merge))
 		same := true
